@@ -7,20 +7,20 @@ PrefixB == <<70, 105, 120, 101, 100, 47, 85, 84, 67>>        \* "Fixed/UTC"
 UTCName == <<85, 84, 67>>                                     \* "UTC"
 UTC0Name == <<85, 84, 67, 48>>                                \* "UTC0"
 cPlusF == 43  cMinusF == 45  cColonF == 58
-Abs(x) == IF x < 0 THEN -x ELSE x
+AbsF(x) == IF x < 0 THEN -x ELSE x
 D2(v) == <<48 + ((v \div 10) % 10), 48 + (v % 10)>>
-InRange(o) == o # 0 /\ Abs(o) <= 86400
+InRange(o) == o # 0 /\ AbsF(o) <= 86400
 \* the offset a fixed_time_zone(o) really has
 Effective(o) == IF InRange(o) THEN o ELSE 0
 OffsetToName(o) ==
   IF ~InRange(o) THEN UTCName
-  ELSE LET a == Abs(o) IN
+  ELSE LET a == AbsF(o) IN
        PrefixB \o <<IF o < 0 THEN cMinusF ELSE cPlusF>> \o D2(a \div 3600) \o <<cColonF>>
          \o D2((a \div 60) % 60) \o <<cColonF>> \o D2(a % 60)
 \* sign, hours, then minutes, then seconds, only as far as they are non-zero
 OffsetToAbbr(o) ==
   IF ~InRange(o) THEN UTCName
-  ELSE LET a == Abs(o)  h == a \div 3600  m == (a \div 60) % 60  s == a % 60 IN
+  ELSE LET a == AbsF(o)  h == a \div 3600  m == (a \div 60) % 60  s == a % 60 IN
        <<IF o < 0 THEN cMinusF ELSE cPlusF>> \o D2(h)
          \o (IF m # 0 \/ s # 0 THEN D2(m) ELSE <<>>) \o (IF s # 0 THEN D2(s) ELSE <<>>)
 IsDig(c) == c >= 48 /\ c <= 57
